@@ -560,6 +560,13 @@ def part_results_ufunc(ctx, shard):
                     except ValueError:
                         continue
                     a, b = mk(s1, unit, 0), mk(s2, unit, 1)
+                    if unit == "m":
+                        # operands whose units combine to a number times a unit (km with 1/m, s/m, m): the class of the
+                        # result is decided after the leftover factor has been applied
+                        for ub in ("1/m", "s/m", "km", "cm**-1"):
+                            a2, b2 = mk(s1, "km", 0), mk(s2, ub, 1)
+                            _run_calls(ctx, name, f"km,{ub}", (s1, s2), [("call", lambda: uf(a2, b2)), ("call-swapped", lambda: uf(b2, a2)), ("outer", lambda: uf.outer(a2, b2))]
+                                       + ([("reduce", lambda: uf.reduce(mk(s1, "km", 0) * mk((), ub, 1)))] if s2 == () and s1 != () else []))
                     calls = [
                         ("call", lambda: uf(a, b)),
                         ("call-bare-right", lambda: uf(a, np.asarray(b.d))),
@@ -575,6 +582,29 @@ def part_results_ufunc(ctx, shard):
                             ("reduceat", lambda: uf.reduceat(a, [0])) if len(s1) == 1 else ("skip", None),
                         ]
                     _run_calls(ctx, name, unit, (s1, s2), calls)
+
+
+GUF_SHAPES = [((3,), (3,)), ((2, 3), (3,)), ((3,), (3, 2)), ((2, 3), (3, 2)), ((1, 3), (3, 1)), ((2, 2, 3), (3,))]
+
+
+def part_results_gufunc(ctx, shard):
+    """matmul / vecdot / (matvec, vecmat where NumPy has them): contractions reach shape () from array operands."""
+    world.reset_world()
+
+    def mk(shape, unit, k):
+        d = (np.arange(int(np.prod(shape)), dtype=float) + 1.0 + k).reshape(shape) / 4.0
+        return unyt_array(d, unit)
+
+    for name in shard:
+        uf = getattr(np, name, None)
+        if uf is None:
+            continue
+        for (s1, s2), (ua_, ub) in itertools.product(GUF_SHAPES, [("m", "m"), ("m", "s"), ("km", "1/m"), ("km", "s/m"), ("km", "m"), ("dimensionless", "m"), ("hr", "1/s")]):
+            a, b = mk(s1, ua_, 0), mk(s2, ub, 1)
+            calls = [("call", lambda: uf(a, b)), ("call-bare-right", lambda: uf(a, np.asarray(b.d))), ("call-bare-left", lambda: uf(np.asarray(a.d), b))]
+            if name == "matmul":
+                calls += [("operator", lambda: a @ b), ("operator-bare-right", lambda: a @ np.asarray(b.d)), ("operator-bare-left", lambda: np.asarray(a.d) @ b)]
+            _run_calls(ctx, name, f"{ua_},{ub}", (s1, s2), calls)
 
 
 def _run_calls(ctx, name, unit, shapes, calls):
@@ -620,6 +650,7 @@ def run(ctx):
 
     ufs = sorted((f for f in ua.unyt_array._ufunc_registry if isinstance(f, np.ufunc)), key=lambda f: f.__name__)
     harness.pmap(ctx, part_results_ufunc, [ufs[i::16] for i in range(16)])
+    harness.pmap(ctx, part_results_gufunc, [[n] for n in ("matmul", "vecdot", "matvec", "vecmat")])
     return {
         "coverage": {
             "rule": "index: shape x dtype x index form (x second index form) executed on the unyt array and on its bare data; "
@@ -633,6 +664,8 @@ def run(ctx):
             "accessors_copying": list(ACCESS_COPY) + list(COPY_Q),
             "reshapers": [k for k, v in RESHAPERS.items() if v],
             "ufuncs": len(ufs),
+            "ufunc_unit_pairs": "same unit on both sides (m, dimensionless, rad) and km with 1/m, s/m, km, cm**-1 (units that combine to a number times a unit)",
+            "gufuncs": {"names": ["matmul", "vecdot", "matvec", "vecmat"], "shape_pairs": [[list(a), list(b)] for a, b in GUF_SHAPES], "unit_pairs": 7},
             "templates": len(R.TEMPLATES),
         },
         "assumptions": [
@@ -656,4 +689,5 @@ def replay(case):
         import unyt.array as ua
 
         part_results_ufunc(ctx, [f for f in ua.unyt_array._ufunc_registry if f.__name__ == case["name"]])
+        part_results_gufunc(ctx, [case["name"]] if case["name"] in ("matmul", "vecdot", "matvec", "vecmat") else [])
     return list(ctx.violations.items())
